@@ -18,7 +18,9 @@ LOOKBEHIND = {'pepsin ph1.3', 'pepsin ph2.0', 'staphylococcal peptidase i', 'pro
               'factor xa', 'enterokinase', 'granzyme b'} | {f'caspase {k}' for k in range(1, 11)}
 
 MODES = ['base', 'base', 'nc', 'nf', 'startnf', 'sec', 'multi', 'rules', 'exc', 'collapse', 'rules',
-         'adj', 'stop', 'sect', 'w2f', 'lowmass', 'stop', 'as', 'as', 'asfs']
+         'adj', 'stop', 'sect', 'w2f', 'lowmass', 'stop', 'as', 'as']
+if os.environ.get('VERIF_NESTED') == '1':
+    MODES = MODES + ['asfs']      # on request only, see make_case
 
 
 def tryptic_protein(r, n_pep, alphabet=refgen.PEPTIDE_AAS, plen=(3, 8)):
@@ -325,7 +327,9 @@ def parse_sets(v):
 
 def campaign(rep, tier, work, salt='cv'):
     r = env.rng(salt)
-    n = 30 * len(MODES) if tier == "quick" else 760 * len(MODES)
+    n = 510 if tier == "quick" else 13600
+    if os.environ.get('VERIF_NESTED') == '1':
+        n += 60 if tier == "quick" else 1500
     items = []
     for i in range(n):
         it = make_case(r, MODES[i % len(MODES)], work, i, tier)
